@@ -1146,12 +1146,14 @@ Inductive SObs (s s' : st) : Prop :=
     (forall x y, nth_error (si s') x = Some y -> x = i \/ nth_error (si s) x = Some y) ->
     exits s' = exits s -> handled s' = handled s -> stop_req s' = stop_req s ->
     kill_req s' = kill_req s -> quiet (cons s') = quiet (cons s) -> SObs s s'
-| so_end i r : log s' = log s ++ [EEnd i r] -> result s' i = Some r -> cframe s s' -> SObs s s'
+| so_end i r : log s' = log s ++ [EEnd i r] -> result s' i = Some r -> result s i = None ->
+    cframe s s' -> SObs s s'
 | so_drain ok j : log s' = log s ++ [EDrainEnd ok] -> nth_error (ds s') j = Some (DDone ok) ->
     cframe s s' -> SObs s s'
 | so_handle i : log s' = log s ++ [EHandle i] -> handled s' = handled s ++ [i] ->
     exits s' = exits s -> stop_req s' = stop_req s -> kill_req s' = kill_req s ->
-    quiet (cons s') = true -> stop_req s = false -> kill_req s = false -> si s' = si s -> SObs s s'
+    quiet (cons s') = true -> stop_req s = false -> kill_req s = false -> si s' = si s ->
+    alive (cons s') = true -> SObs s s'
 | so_exit r : log s' = log s ++ [EExit r] -> exits s' = exits s ++ [r] -> handled s' = handled s ->
     stop_req s' = stop_req s -> kill_req s' = kill_req s -> quiet (cons s') = quiet (cons s) ->
     si s' = si s -> SObs s s'
@@ -1187,10 +1189,11 @@ Qed.
 Lemma sobs_ext s s' s2 :
   SObs s s' -> log s2 = log s' -> exits s2 = exits s' -> handled s2 = handled s' ->
   stop_req s2 = stop_req s' -> kill_req s2 = kill_req s' -> quiet (cons s2) = quiet (cons s') ->
+  alive (cons s2) = alive (cons s') ->
   si s2 = si s' -> ds s2 = ds s' ->
   (forall i r, result s' i = Some r -> result s2 i = Some r) -> SObs s s2.
 Proof.
-  intros H L E T S K C I Dd R.
+  intros H L E T S K C Al I Dd R.
   destruct H; unfold cframe in *.
   - apply so_silent; try congruence. rewrite C. auto.
   - eapply so_begin; eauto; try congruence. intros x y Hx. rewrite I in Hx. auto.
@@ -1210,9 +1213,12 @@ Proof.
   destruct (nth_error (ss s) i) as [p|] eqn:Hn; [|apply silent_of_cframe; auto; (repeat split; auto)].
   destruct (nth_error (si s) i) as [inf|] eqn:Hi; [|apply silent_of_cframe; auto; (repeat split; auto)].
   assert (FIN : forall s0 r, log s0 = log s -> cframe s s0 -> nth_error (ss s0) i = Some p ->
-                 SObs s (s_finish s0 i r)).
-  { intros s0 r L C N. eapply (so_end _ _ i r); simpl; try rewrite L; auto.
-    unfold result. simpl. rewrite (nth_upd_eq _ _ _ _ N). auto. }
+                 s_done p = false -> SObs s (s_finish s0 i r)).
+  { intros s0 r L C N ND. apply (so_end _ _ i r).
+    - simpl. rewrite L. auto.
+    - unfold result. simpl. rewrite (nth_upd_eq _ _ _ _ N). auto.
+    - unfold result. rewrite Hn. destruct p; auto; discriminate.
+    - unfold cframe in *. simpl. exact C. }
   assert (SIL : forall s0 p', log s0 = log s -> cframe s s0 -> SObs s (set_spc s0 i p')).
   { intros s0 p' L C. apply silent_of_cframe; simpl; auto. }
   destruct p as [| | |w| |todo|k todo| |r|r a|r];
@@ -1265,7 +1271,7 @@ Proof.
       * destruct (hfail_of s i); [apply (so_interv _ _ EFail); simpl; auto|apply so_silent; simpl; auto].
       * destruct (do_call s c) as [k s'] eqn:H. pose proof (sobs_do_call _ _ _ _ Hl H) as X.
         destruct (do_call_shape _ _ _ _ H) as (_ & _ & _ & _ & _ & _ & _ & _ & _ & _ & _ & _ & _ & _ & _ & _ & _ & _ & Eco & _).
-        eapply sobs_ext; eauto; simpl; auto. rewrite Eco, Ec. auto.
+        eapply sobs_ext; eauto; simpl; auto; rewrite Eco, Ec; auto.
     + destruct (child_done s k); [apply so_silent; simpl; auto|apply silent_of_cframe; auto; apply cframe_refl].
   - (* LKillNow *) destruct (in_handler (cons s) && kill_req s) eqn:E; [|apply silent_of_cframe; auto; apply cframe_refl].
     apply andb_true_iff in E as [_ E]. apply so_silent; simpl; auto. intros; congruence.
@@ -1337,8 +1343,8 @@ Proof.
   set (s' := step s l) in *.
   assert (LATE : forall i, 4 <= status s /\ late_ok s i -> 4 <= status s' /\ late_ok s' i).
   { intros i [A1 A2]. split; [lia|apply late_step; auto]. }
-  destruct SO as [L E H S K Si Q | i w inf L Hn Hi Hw Hsi E H S K Q | i r L Hr (E & H & S & K & Q & Si)
-                 | ok j L Hj (E & H & S & K & Q & Si) | i L H E S K Q S0 K0 Si | r L E H S K Q Si | e He L E H Si].
+  destruct SO as [L E H S K Si Q | i w inf L Hn Hi Hw Hsi E H S K Q | i r L Hr Hr0 (E & H & S & K & Q & Si)
+                 | ok j L Hj (E & H & S & K & Q & Si) | i L H E S K Q S0 K0 Si Al | r L E H S K Q Si | e He L E H Si].
   - (* silent *)
     constructor; rewrite ?(O7_same _ _ L).
     + auto.
@@ -1456,4 +1462,292 @@ Proof.
       pose proof (not_idle_closed s I AD Hc A) as X. destruct (q s); [destruct X|discriminate].
     + simpl in Q. destruct r; try discriminate.
       destruct (q_dead _ (inv_q _ I) _ Eco) as (-> & _). auto.
+Qed.
+
+(* ---------- soundness of the executable oracle check_C02 on model logs ---------- *)
+
+(* a frame offering a message of the wrong type never gets past the TypeId check *)
+Definition wrong_ok (s : st) (i : nat) : Prop :=
+  forall inf, nth_error (si s) i = Some inf -> wrong inf = true ->
+  match nth_error (ss s) i with
+  | Some T0 | Some (SDone RInvalid) | None => True
+  | _ => False
+  end.
+
+Lemma wrong_step s l i : Inv s -> wrong_ok s i -> wrong_ok (step s l) i.
+Proof.
+  intros I W inf' Hsi' Hw'.
+  destruct (nth_error (si s) i) as [inf1|] eqn:E1.
+  - pose proof (m_si _ _ (mono_step s l) _ _ E1) as X. rewrite X in Hsi'. injection Hsi' as <-.
+    specialize (W _ E1 Hw').
+    destruct (step_pc s l i) as [[K|[K1 K2]]|[f K]].
+    + rewrite K. exact W.
+    + rewrite K2. auto.
+    + rewrite K. unfold sstep.
+      destruct (nth_error (ss s) i) as [p|] eqn:Hn; [|rewrite Hn; auto]. rewrite E1.
+      destruct p; try tauto.
+      * rewrite Hw'. simpl. rewrite (nth_upd_eq _ _ _ _ Hn). auto.
+      * rewrite Hn. exact W.
+  - assert (Hn : nth_error (ss s) i = None).
+    { apply nth_error_None. rewrite <- (n_len _ (inv_n _ I)). apply nth_error_None. auto. }
+    destruct (step_pc s l i) as [[K|[K1 K2]]|[f K]].
+    + rewrite K, Hn. auto.
+    + rewrite K2. auto.
+    + rewrite K. unfold sstep. rewrite Hn, Hn. auto.
+Qed.
+
+Definition O2 (s : st) : o2 := fold_left o2_step (log s) o2_init.
+
+Lemma O2_snoc s s' e : log s' = log s ++ [e] -> O2 s' = o2_step (O2 s) e.
+Proof. unfold O2. intros ->. rewrite fold_left_app. reflexivity. Qed.
+Lemma O2_same s s' : log s' = log s -> O2 s' = O2 s.
+Proof. unfold O2. intros ->. reflexivity. Qed.
+
+Lemma mem_false x l : mem x l = false <-> ~ In x l.
+Proof. rewrite <- mem_in. destruct (mem x l); split; intros; try congruence; try tauto. Qed.
+
+(* x was accepted, and precedes j in acceptance order if j is accepted at all *)
+Definition precedes (s : st) (x j : nat) : Prop :=
+  In x (accepted s) /\ (In j (accepted s) -> before x j (accepted s)).
+
+Lemma precedes_mono s s' x j : Mono s s' -> precedes s x j -> precedes s' x j.
+Proof.
+  intros [_ _ (ext & Eh) _] [A B]. unfold precedes, accepted in *. rewrite Eh, ids_app.
+  split; [apply in_or_app; auto|]. intros X. apply in_app_or in X as [X|X].
+  - destruct (B X) as (a & b & c & E). exists a, b, (c ++ ids ext). rewrite E.
+    rewrite <- !app_assoc. simpl. rewrite <- app_assoc. reflexivity.
+  - apply in_split in A as (a & b & Ea). apply in_split in X as (c & d & Ec).
+    exists a, (b ++ c), d. rewrite Ea, Ec. rewrite <- !app_assoc. simpl. reflexivity.
+Qed.
+
+Record OInv2 (s : st) : Prop := {
+  p_bad : b_bad (O2 s) = false;
+  p_begun : forall i, mem i (b_begun (O2 s)) = true <-> nth_error (si s) i <> None;
+  p_ended : forall i, mem i (b_ended (O2 s)) = true -> result s i <> None;
+  p_ok : forall i, mem i (b_ok (O2 s)) = true -> result s i = Some ROk;
+  p_rej : forall i, mem i (b_rej (O2 s)) = true -> exists r, result s i = Some r /\ r <> ROk;
+  p_hd : forall i, mem i (b_handled (O2 s)) = true <-> In i (handled s);
+  p_ex : b_exited (O2 s) = true -> exits s <> [];
+  p_wr : forall i, mem i (b_wrong (O2 s)) = true ->
+         exists inf, nth_error (si s) i = Some inf /\ wrong inf = true;
+  p_snap : forall j x, mem x (snap_of j (b_snap (O2 s))) = true -> precedes s x j;
+  p_w : forall i, wrong_ok s i
+}.
+
+Lemma oinv2_init : OInv2 init.
+Proof.
+  constructor; unfold O2; simpl; auto; try discriminate; try tauto.
+  - intros i. split; [discriminate|]. destruct i; simpl; tauto.
+  - intros i. split; [discriminate|tauto].
+  - intros i inf H. destruct i; discriminate.
+Qed.
+
+Lemma wrong_not_accepted s i inf : Inv s -> wrong_ok s i ->
+  nth_error (si s) i = Some inf -> wrong inf = true -> ~ In i (accepted s).
+Proof.
+  intros I W Hs Hw X. specialize (W _ Hs Hw). unfold accepted in X. rewrite in_ids in X.
+  apply (h_pt _ (inv_h _ I) i) in X. unfold enq_at in X.
+  destruct (nth_error (ss s) i) as [[| | | | | | | | | |[]]|]; simpl in *; try tauto; discriminate.
+Qed.
+
+Lemma handled_accepted s i : Inv s -> In i (handled s) -> In i (accepted s).
+Proof.
+  intros I H. destruct (q_split _ (inv_q _ I)) as (fl & E & _). unfold handled, accepted in *.
+  rewrite E, ids_app. apply in_or_app. auto.
+Qed.
+
+Lemma before_nodup_neq {A} (x y : A) l : NoDup l -> before x y l -> x <> y.
+Proof.
+  intros ND (a & b & c & ->) <-. apply NoDup_remove_2 in ND. apply ND.
+  apply in_or_app. right. apply in_or_app. right. left. auto.
+Qed.
+
+Lemma before_in_l {A} (x y : A) l : before x y l -> In x l.
+Proof. intros (a & b & c & ->). apply in_or_app. right. left. auto. Qed.
+
+Lemma si_of_result s i r : Inv s -> result s i = Some r -> nth_error (si s) i <> None.
+Proof.
+  intros I H. apply result_pc in H. apply nth_error_Some. rewrite (n_len _ (inv_n _ I)).
+  apply nth_error_Some. congruence.
+Qed.
+
+Local Arguments mem : simpl never.
+
+Theorem oinv2_step s l : Inv s -> OInv2 s -> OInv2 (step s l).
+Proof.
+  intros I [B Bg En Ok Rj Hd Ex Wr Sn W].
+  pose proof (step_inv s l I) as I'.
+  pose proof (mono_step s l) as M. pose proof M as [_ _ _ Msi].
+  pose proof (sobs_step s l (n_len _ (inv_n _ I))) as SO.
+  set (s' := step s l) in *.
+  assert (G_en : forall i, mem i (b_ended (O2 s)) = true -> result s' i <> None).
+  { intros i X. specialize (En i X). destruct (result s i) eqn:E; [|congruence].
+    unfold s'. rewrite (result_step _ l _ _ E). discriminate. }
+  assert (G_ok : forall i, mem i (b_ok (O2 s)) = true -> result s' i = Some ROk).
+  { intros i X. apply result_step, Ok, X. }
+  assert (G_rj : forall i, mem i (b_rej (O2 s)) = true -> exists r, result s' i = Some r /\ r <> ROk).
+  { intros i X. destruct (Rj i X) as (r & A1 & A2). exists r. split; auto. apply result_step; auto. }
+  assert (G_wr : forall i, mem i (b_wrong (O2 s)) = true ->
+                 exists inf, nth_error (si s') i = Some inf /\ wrong inf = true).
+  { intros i X. destruct (Wr i X) as (inf & A1 & A2). exists inf. split; auto. }
+  assert (G_sn : forall j x, mem x (snap_of j (b_snap (O2 s))) = true -> precedes s' x j).
+  { intros j x X. eapply precedes_mono; eauto. }
+  assert (G_w : forall i, wrong_ok s' i) by (intros i; apply wrong_step; auto).
+  destruct SO as [L E H S K Si Q | i w inf L Hn Hi Hw Hsi E H S K Q | i r L Hr Hr0 (E & H & S & K & Q & Si)
+                 | ok j L Hj (E & H & S & K & Q & Si) | i L H E S K Q S0 K0 Si Al | r L E H S K Q Si | e He L E H Si].
+  - (* silent *)
+    constructor; rewrite ?(O2_same _ _ L); auto.
+    + intros i. rewrite Si. auto.
+    + intros i. rewrite H. auto.
+    + rewrite E. auto.
+  - (* begin *)
+    assert (Nb : mem i (b_begun (O2 s)) = false).
+    { apply mem_false. intros X. apply mem_in, Bg in X. apply X. apply nth_error_None.
+      rewrite (n_len _ (inv_n _ I)). apply nth_error_None. auto. }
+    constructor; rewrite ?(O2_snoc _ _ _ L); simpl; rewrite ?Nb; simpl; auto.
+    + intros x. rewrite mem_cons. split.
+      * intros [->|X]; [congruence|]. apply Bg in X. destruct (nth_error (si s) x) eqn:E1; [|congruence].
+        rewrite (Msi _ _ E1). discriminate.
+      * intros X. destruct (nth_error (si s') x) as [y|] eqn:E1; [|congruence].
+        destruct (Hsi _ _ E1) as [->|E2]; auto. right. apply Bg. congruence.
+    + intros x. rewrite H. auto.
+    + rewrite E. auto.
+    + intros x X. destruct w; [apply mem_cons in X as [->|X]|]; eauto.
+    + intros j x X. destruct (Nat.eqb j i) eqn:Ej; [|eauto].
+      apply Nat.eqb_eq in Ej. subst j. eapply precedes_mono; eauto.
+      split; [apply ok_accepted; auto|]. intros Y. exfalso.
+      unfold accepted in Y. rewrite in_ids in Y. apply (h_pt _ (inv_h _ I) i) in Y.
+      unfold enq_at in Y. rewrite Hn in Y. discriminate.
+  - (* end *)
+    assert (Hb : mem i (b_begun (O2 s)) = true).
+    { apply Bg. rewrite <- Si. eapply si_of_result; eauto. }
+    assert (He : mem i (b_ended (O2 s)) = false).
+    { destruct (mem i (b_ended (O2 s))) eqn:X; auto. apply En in X. congruence. }
+    assert (Hnw : forall r', r = r' -> r' <> RInvalid -> mem i (b_wrong (O2 s)) = false).
+    { intros r' -> Hr'. destruct (mem i (b_wrong (O2 s))) eqn:X; auto. exfalso.
+      destruct (G_wr _ X) as (inf & A1 & A2). specialize (G_w i _ A1 A2).
+      rewrite (result_pc _ _ _ Hr) in G_w. destruct r'; tauto. }
+    assert (Hnh : r <> ROk -> mem i (b_handled (O2 s)) = false).
+    { intros Hr'. apply mem_false. intros X. apply mem_in, Hd in X. rewrite <- H in X.
+      destruct (rejected_not_accepted s' i r I' Hr Hr') as (_ & A & _). auto. }
+    constructor; rewrite ?(O2_snoc _ _ _ L); simpl; rewrite ?Hb, ?He; simpl.
+    + destruct r as [|m|].
+      * rewrite (Hnw ROk eq_refl) by discriminate. simpl. auto.
+      * destruct (rejected_not_accepted s' i _ I' Hr ltac:(discriminate)) as (_ & _ & A).
+        rewrite (A m eq_refl), Nat.eqb_refl, (Hnh ltac:(discriminate)), (Hnw (RErr m) eq_refl) by discriminate.
+        simpl. auto.
+      * rewrite (Hnh ltac:(discriminate)). simpl. auto.
+    + intros x. rewrite Si.
+      destruct r as [|m|]; [rewrite (Hnw ROk eq_refl) by discriminate; simpl; auto| |].
+      * destruct (Nat.eqb m i && negb (mem i (b_handled (O2 s))) && negb (mem i (b_wrong (O2 s)))); simpl; auto.
+      * destruct (mem i (b_handled (O2 s))); simpl; auto.
+    + intros x.
+      destruct r as [|m|]; [rewrite (Hnw ROk eq_refl) by discriminate; simpl| |].
+      * intros X. apply mem_cons in X as [->|X]; auto. congruence.
+      * destruct (Nat.eqb m i && negb (mem i (b_handled (O2 s))) && negb (mem i (b_wrong (O2 s)))); simpl; auto.
+        intros X. apply mem_cons in X as [->|X]; auto. congruence.
+      * destruct (mem i (b_handled (O2 s))); simpl; auto.
+        intros X. apply mem_cons in X as [->|X]; auto. congruence.
+    + intros x.
+      destruct r as [|m|]; [rewrite (Hnw ROk eq_refl) by discriminate; simpl| |].
+      * intros X. apply mem_cons in X as [->|X]; auto.
+      * destruct (Nat.eqb m i && negb (mem i (b_handled (O2 s))) && negb (mem i (b_wrong (O2 s)))); simpl; auto.
+      * destruct (mem i (b_handled (O2 s))); simpl; auto.
+    + intros x.
+      destruct r as [|m|]; [rewrite (Hnw ROk eq_refl) by discriminate; simpl; auto| |].
+      * destruct (Nat.eqb m i && negb (mem i (b_handled (O2 s))) && negb (mem i (b_wrong (O2 s)))); simpl; auto.
+        intros X. apply mem_cons in X as [->|X]; auto. exists (RErr m). split; auto. discriminate.
+      * destruct (mem i (b_handled (O2 s))); simpl; auto.
+        intros X. apply mem_cons in X as [->|X]; auto. exists RInvalid. split; auto. discriminate.
+    + intros x. rewrite H.
+      destruct r as [|m|]; [rewrite (Hnw ROk eq_refl) by discriminate; simpl; auto| |].
+      * destruct (Nat.eqb m i && negb (mem i (b_handled (O2 s))) && negb (mem i (b_wrong (O2 s)))); simpl; auto.
+      * destruct (mem i (b_handled (O2 s))); simpl; auto.
+    + rewrite E.
+      destruct r as [|m|]; [rewrite (Hnw ROk eq_refl) by discriminate; simpl; auto| |].
+      * destruct (Nat.eqb m i && negb (mem i (b_handled (O2 s))) && negb (mem i (b_wrong (O2 s)))); simpl; auto.
+      * destruct (mem i (b_handled (O2 s))); simpl; auto.
+    + intros x.
+      destruct r as [|m|]; [rewrite (Hnw ROk eq_refl) by discriminate; simpl; auto| |].
+      * destruct (Nat.eqb m i && negb (mem i (b_handled (O2 s))) && negb (mem i (b_wrong (O2 s)))); simpl; auto.
+      * destruct (mem i (b_handled (O2 s))); simpl; auto.
+    + intros j x.
+      destruct r as [|m|]; [rewrite (Hnw ROk eq_refl) by discriminate; simpl; auto| |].
+      * destruct (Nat.eqb m i && negb (mem i (b_handled (O2 s))) && negb (mem i (b_wrong (O2 s)))); simpl; auto.
+      * destruct (mem i (b_handled (O2 s))); simpl; auto.
+    + auto.
+  - (* drain end *)
+    constructor; rewrite ?(O2_snoc _ _ _ L); simpl; auto.
+    + intros i. rewrite Si. auto.
+    + intros i. rewrite H. auto.
+    + rewrite E. auto.
+  - (* handle *)
+    pose proof (refines_fifo s' I') as (_ & NDa & NDh). fold s' in NDh.
+    assert (Hin : In i (handled s')) by (rewrite H; apply in_or_app; right; left; auto).
+    assert (Hacc : In i (accepted s')) by (apply handled_accepted; auto).
+    assert (N1 : mem i (b_handled (O2 s)) = false).
+    { apply mem_false. intros X. apply mem_in, Hd in X. rewrite H in NDh.
+      apply NoDup_remove_2 in NDh. rewrite app_nil_r in NDh. auto. }
+    assert (N2 : mem i (b_rej (O2 s)) = false).
+    { destruct (mem i (b_rej (O2 s))) eqn:X; auto. exfalso. destruct (G_rj _ X) as (r & A1 & A2).
+      destruct (rejected_not_accepted s' i r I' A1 A2) as (_ & A & _). auto. }
+    assert (N3 : mem i (b_begun (O2 s)) = true).
+    { apply Bg. rewrite <- Si. unfold accepted in Hacc. rewrite in_ids in Hacc.
+      apply (h_pt _ (inv_h _ I') i) in Hacc. unfold enq_at in Hacc.
+      destruct (nth_error (ss s') i) eqn:X; [|discriminate].
+      apply nth_error_Some. rewrite (n_len _ (inv_n _ I')). apply nth_error_Some. congruence. }
+    assert (N4 : b_exited (O2 s) = false).
+    { destruct (b_exited (O2 s)) eqn:X; auto. exfalso. apply (Ex eq_refl). rewrite <- E.
+      destruct (q_alive _ (inv_q _ I') Al) as (_ & A & _). exact A. }
+    assert (N5 : mem i (b_wrong (O2 s)) = false).
+    { destruct (mem i (b_wrong (O2 s))) eqn:X; auto. exfalso. destruct (G_wr _ X) as (inf & A1 & A2).
+      eapply (wrong_not_accepted s' i); eauto. }
+    assert (N6 : subset (snap_of i (b_snap (O2 s))) (b_handled (O2 s)) = true).
+    { unfold subset. apply forallb_forall. intros x X. apply mem_in in X.
+      destruct (G_sn _ _ X) as [_ P]. specialize (P Hacc).
+      destruct (q_split _ (inv_q _ I')) as (fl & E1 & _).
+      assert (E2 : accepted s' = handled s' ++ ids fl) by (unfold accepted, handled; rewrite E1; apply ids_app).
+      rewrite E2 in P, NDa. pose proof (before_prefix _ _ _ _ NDa P Hin) as P2.
+      pose proof (before_nodup_neq _ _ _ NDh P2) as Hne. apply before_in_l in P2.
+      rewrite H in P2. apply in_app_or in P2 as [P2|[P2|[]]]; [|congruence].
+      apply Hd. auto. }
+    constructor; rewrite ?(O2_snoc _ _ _ L); simpl; rewrite ?N1, ?N2, ?N3, ?N4, ?N5, ?N6; simpl; auto.
+    + intros x. rewrite Si. auto.
+    + intros x. rewrite mem_cons, H, in_app_iff. simpl. rewrite Hd. intuition.
+    + rewrite N4 in Ex. intros X. discriminate.
+  - (* exit *)
+    constructor; rewrite ?(O2_snoc _ _ _ L); simpl; auto.
+    + intros i. rewrite Si. auto.
+    + intros i. rewrite H. auto.
+    + intros _. rewrite E. destruct (exits s); discriminate.
+  - (* intervention *)
+    assert (Z : o2_step (O2 s) e = O2 s) by (destruct e; try discriminate; auto).
+    constructor; rewrite ?(O2_snoc _ _ _ L), ?Z; auto.
+    + intros i. rewrite Si. auto.
+    + intros i. rewrite H. auto.
+    + rewrite E. auto.
+Qed.
+
+Theorem reachable_oinv2 s : reachable s -> Inv s /\ OInv2 s.
+Proof.
+  intros [ls ->]. unfold run. rewrite <- fold_left_rev_right.
+  induction (rev ls) as [|l t IH]; simpl.
+  - split; [constructor; [apply ninv_init|apply hinv_init|apply qinv_init]|apply oinv2_init].
+  - destruct IH. split; [apply step_inv|apply oinv2_step]; auto.
+Qed.
+
+(* the flag the harness passes: the actor is still polling and its mailbox is empty *)
+Definition alive_idle (s : st) : bool :=
+  alive (cons s) && match q s with [] => true | _ => false end.
+
+Theorem check_C02_sound s : reachable s -> check_C02 (alive_idle s) (log s) = true.
+Proof.
+  intros R. destruct (reachable_oinv2 s R) as [I [B Bg En Ok Rj Hd Ex Wr Sn W]].
+  unfold check_C02. fold (O2 s). rewrite B. simpl.
+  destruct (alive_idle s) eqn:A; auto.
+  unfold alive_idle in A. apply andb_true_iff in A as [A1 A2].
+  destruct (q s) eqn:Eq; [|discriminate].
+  pose proof (exactly_once_if_alive s I A1 Eq) as E.
+  unfold subset. apply forallb_forall. intros x X. apply mem_in in X.
+  apply Hd. rewrite E. apply ok_accepted; auto.
 Qed.
